@@ -61,7 +61,10 @@ type vC12Net struct {
 	answer  vC12Answer
 	bindErr error
 	rec     *vC12Rec
-	dead    string // a loopback endpoint nothing listens on: sends to it fail at once (ECONNREFUSED)
+	dead    string // the endpoint of the servers that are gone: bound for the life of the rig (so no listener of another
+	// rig can take the port over), it answers every datagram with two octets of garbage and closes every connection at once
+	deadPC net.PacketConn
+	deadLN net.Listener
 }
 
 // vC12Rec is the step-by-step observer: while [on], every upstream packet arrival and every
@@ -323,10 +326,37 @@ func (n *vC12Net) handler(id int, tcp bool) dns.Handler {
 }
 
 func (n *vC12Net) start(count int) {
-	// reserve an endpoint, then free it again: the addresses vC12Dead names are mapped to it
-	if pc, err := net.ListenPacket("udp", "127.0.0.1:0"); err == nil {
-		n.dead = pc.LocalAddr().String()
-		pc.Close()
+	// the endpoint the addresses vC12Dead names are mapped to
+	for try := 0; try < 20 && n.deadPC == nil; try++ {
+		pc, err := net.ListenPacket("udp", "127.0.0.1:0")
+		if err != nil {
+			continue
+		}
+		ln, err := net.Listen("tcp", pc.LocalAddr().String())
+		if err != nil {
+			pc.Close()
+			continue
+		}
+		n.dead, n.deadPC, n.deadLN = pc.LocalAddr().String(), pc, ln
+		go func() {
+			buf := make([]byte, 2048)
+			for {
+				_, from, err := pc.ReadFrom(buf)
+				if err != nil {
+					return
+				}
+				_, _ = pc.WriteTo([]byte{0, 0}, from)
+			}
+		}()
+		go func() {
+			for {
+				c, err := ln.Accept()
+				if err != nil {
+					return
+				}
+				c.Close()
+			}
+		}()
 	}
 	for id := 0; id < count; id++ {
 		var pc net.PacketConn
@@ -361,7 +391,14 @@ func (n *vC12Net) start(count int) {
 	}
 }
 
+// cache.New sets package-level metric hooks; production builds one cache at start-up, the lab builds rigs from two goroutines
+var vC12RigMu sync.Mutex
+
 func (n *vC12Net) stop() {
+	if n.deadPC != nil {
+		n.deadPC.Close()
+		n.deadLN.Close()
+	}
 	for _, s := range n.srvs {
 		_ = s.udp.Shutdown()
 		_ = s.tcp.Shutdown()
@@ -780,15 +817,30 @@ func vC12Rehome(h int) vC12Topo {
 			if os.Getenv("VERIF_C12_DEBUG") != "" {
 				fmt.Fprintf(os.Stderr, "rehome: warm-up %+v\n", w)
 			}
+			// the history is only taken as established when every step is OBSERVED to have taken: the first query failed as a
+			// resolution failure after reaching the root, ...
+			if !w.written || w.rcode != dns.RcodeServerFailure || w.packets < 1 {
+				return
+			}
 			phase.Store(2)
+			primed := true
 			for k := 0; k < h; k++ {
 				// the cached address of the name has expired; another client has asked for it since, so the answer cache
 				// holds the new one (the resolver's own nameserver-address cache and the delegation still hold the old)
 				q := dns.Question{Name: fmt.Sprintf("n%d.rh.", k), Qtype: dns.TypeA, Qclass: dns.ClassINET}
 				rig.cm.Purge(q)
 				rig.cd = true
-				rig.queryWith(q.Name, false, middleware.NewRecursionWorkLedger(ample))
+				a := rig.queryWith(q.Name, false, middleware.NewRecursionWorkLedger(ample))
+				// ... the name resolved to an address, and asking again is answered from the cache (nothing sent)
+				b := rig.queryWith(q.Name, false, middleware.NewRecursionWorkLedger(ample))
 				rig.cd = false
+				if a.rcode != dns.RcodeSuccess || len(a.canon) <= 4 || a.packets < 1 ||
+					b.rcode != dns.RcodeSuccess || len(b.canon) <= 4 || b.packets != 0 {
+					primed = false
+				}
+			}
+			if !primed {
+				return
 			}
 			zq := dns.Question{Name: "rz.mv.", Qtype: dns.TypeNS, Qclass: dns.ClassINET}
 			if fs, ok := rig.cm.Store().(middleware.ResolutionFailureStore); ok {
@@ -1007,7 +1059,9 @@ func vC12NewSignedRig(t *testing.T, mode int, maxOut, maxInt uint32, qmin, v6 bo
 		sv.beforeReply = hook
 		sv.mu.Unlock()
 	}
+	vC12RigMu.Lock()
 	cm := cachemw.New(cfg)
+	vC12RigMu.Unlock()
 	probe := &vC12Probe{rec: rec}
 	reg := middleware.NewRegistry()
 	reg.Register("edns", func(c *config.Config) middleware.Handler { return edns.New(c) })
@@ -1084,7 +1138,9 @@ func vC12NewRig(topo vC12Topo, mode int, maxOut, maxInt uint32, qmin bool) (*vC1
 	mapper := n.mapper()
 	r.resolveTarget.Store(&mapper)
 	h := &DNSHandler{resolver: r, cfg: cfg}
+	vC12RigMu.Lock()
 	cm := cachemw.New(cfg)
+	vC12RigMu.Unlock()
 	probe := &vC12Probe{rec: rec}
 	reg := middleware.NewRegistry()
 	reg.Register("edns", func(c *config.Config) middleware.Handler { return edns.New(c) })
@@ -1574,6 +1630,11 @@ func TestVerifC12Lab(t *testing.T) {
 		hiccup := 900 * time.Millisecond
 		if topo.prepare != nil {
 			hiccup = 100 * time.Millisecond // these rigs run on a 120 ms socket timeout
+		}
+		if topo.prepare != nil && (rep[0].packets < 1 || rep[1].packets < 1) {
+			// with nothing budgeted (off) or nothing enforced (shadow) the re-homed zone is reached: a run in which no scripted
+			// server received anything did not run on the rig it was meant to (observed, not assumed): not comparable
+			bad = true
 		}
 		if bad || rep[0].elapsed > hiccup || rep[1].elapsed > hiccup {
 			emit(map[string]any{"k": "lab-eq", "inconclusive": true, "desc": desc})
